@@ -13,6 +13,7 @@ import (
 	"sync/atomic"
 	"time"
 
+	"github.com/openconfig/gnmi/ctree"
 	"github.com/openconfig/gnmi/subscribe"
 	"github.com/openconfig/gnmi/zz_verif/vh"
 )
@@ -72,12 +73,55 @@ func waitParked(e *engine, live func(i int) bool, needSync bool) bool {
 	return false
 }
 
-func runStall(cs *Case) *Obs {
+// evRec is one atomic step of the run, in the order it happened.
+type evRec struct {
+	kind string // write feed unlock regall walk sync deq read sent timeout
+	i    int    // subscriber
+	op   Op
+	opi  int // index among the phase-2 writes (-1: pre-population)
+	resp Resp
+	dup  int
+	q    int
+	stat bool   // deq: the (duplicates, queue length) pair was reported
+	res  string // write: result class
+}
+
+type stallState struct {
+	blocked   bool
+	forever   bool
+	since     int // number of phase-2 writes completed when the block began
+	remaining int
+	release   chan struct{}
+}
+
+func runStall(cs *Case) (*Obs, []evRec) {
 	n := len(cs.Subs)
-	obs := &Obs{Ended: make([]bool, n), Deq: make([][][2]int, n), Coal: make([]int, n), Returned: true}
+	obs := &Obs{Ended: make([]bool, n), Deq: make([][][2]int, n), Coal: make([]int, n), Returned: true, Stalled: make([]int, n)}
 	var e *engine
-	var dmu sync.Mutex
+	var lmu sync.Mutex
+	var log []evRec
+	add := func(r evRec) int {
+		lmu.Lock()
+		log = append(log, r)
+		k := len(log) - 1
+		lmu.Unlock()
+		return k
+	}
 	var phase2 atomic.Bool
+	subOf := func() int {
+		g := curGoid()
+		for i, st := range e.streams {
+			st.mu.Lock()
+			mine := st.goids[g]
+			st.mu.Unlock()
+			if mine {
+				return i
+			}
+		}
+		return -1
+	}
+	// the (duplicates, queue length) pair of the dequeue that precedes a Send
+	pending := make([]*[2]int, n)
 	timeout := time.Duration(cs.TimeoutMs) * time.Millisecond
 	e = newEngine(cs, subscribe.WithTimeout(timeout), subscribe.WithStats(),
 		subscribe.WithClientStatsTest(func(dup, q int64) {
@@ -86,28 +130,33 @@ func runStall(cs *Case) *Obs {
 			if !phase2.Load() {
 				return
 			}
-			g := curGoid()
-			for i, st := range e.streams {
-				st.mu.Lock()
-				mine := st.goids[g]
-				st.mu.Unlock()
-				if mine {
-					dmu.Lock()
-					obs.Deq[i] = append(obs.Deq[i], [2]int{int(dup), int(q)})
-					dmu.Unlock()
-				}
+			if i := subOf(); i >= 0 {
+				lmu.Lock()
+				pending[i] = &[2]int{int(dup), int(q)}
+				obs.Deq[i] = append(obs.Deq[i], [2]int{int(dup), int(q)})
+				lmu.Unlock()
 			}
 		}))
+	e.feedHook = func(*ctree.Leaf) { add(evRec{kind: "feed"}) }
+	nres := 0
+	apply := func(o Op, opi int) string {
+		k := add(evRec{kind: "write", op: o, opi: opi})
+		r := e.apply(o)
+		lmu.Lock()
+		log[k].res = r
+		lmu.Unlock()
+		add(evRec{kind: "unlock"})
+		return r
+	}
 	for _, o := range cs.Ops {
 		if o.W == -1 {
-			e.apply(o)
+			apply(o, -1)
 		}
 	}
-	armed := make([]bool, n)
-	blocked := make([]bool, n)
-	everBlocked := make([]bool, n)
-	release := make(chan struct{})
 	var bmu sync.Mutex
+	stalls := make([]*stallState, n)
+	ordinal := make([]int, n)
+	written := 0
 	done := make([]chan struct{}, n)
 	started := make([]bool, n)
 	live := func(i int) bool {
@@ -124,39 +173,62 @@ func runStall(cs *Case) *Obs {
 	for i, sc := range cs.Subs {
 		i := i
 		st := newStream(i, sc)
+		stalls[i] = &stallState{}
 		st.onSend = func(s *memStream, r Resp) error {
-			bmu.Lock()
-			a := armed[i] && cs.Stall[i] != 0
-			if a {
-				blocked[i] = true
-				everBlocked[i] = true
+			lmu.Lock()
+			pd := pending[i]
+			pending[i] = nil
+			lmu.Unlock()
+			if pd != nil {
+				add(evRec{kind: "deq", i: i, dup: pd[0], q: pd[1], stat: true})
+			} else {
+				add(evRec{kind: "deq", i: i})
 			}
-			bmu.Unlock()
-			if !a {
+			add(evRec{kind: "read", i: i, resp: r})
+			if !phase2.Load() {
 				return nil
 			}
-			if cs.Stall[i] == 1 {
-				select {
-				case <-release:
-					bmu.Lock()
-					blocked[i] = false
-					armed[i] = false
-					bmu.Unlock()
-					return nil
-				case <-s.ctx.Done():
-					return s.ctx.Err()
+			bmu.Lock()
+			ordinal[i]++
+			var blk *Block
+			if i < len(cs.Plan) {
+				for k := range cs.Plan[i] {
+					if cs.Plan[i][k].At == ordinal[i] {
+						blk = &cs.Plan[i][k]
+					}
 				}
 			}
-			<-s.ctx.Done()
-			return s.ctx.Err()
+			if blk == nil {
+				bmu.Unlock()
+				return nil
+			}
+			ss := stalls[i]
+			ss.blocked, ss.forever, ss.since, ss.remaining = true, blk.Hold == 0, written, blk.Hold
+			ss.release = make(chan struct{})
+			rel := ss.release
+			if ss.forever {
+				obs.Stalled[i] = 2
+			}
+			bmu.Unlock()
+			select {
+			case <-rel:
+				return nil
+			case <-s.ctx.Done():
+				return s.ctx.Err()
+			}
 		}
+		st.afterSend = func(*memStream) { add(evRec{kind: "sent", i: i}) }
 		e.streams = append(e.streams, st)
 		done[i] = make(chan struct{})
 	}
 	var emu sync.Mutex
-	// the subscribers start one after the other and drain their snapshots
 	startSub := func(i int) {
 		started[i] = true
+		add(evRec{kind: "regall", i: i})
+		if !cs.Subs[i].UO {
+			add(evRec{kind: "walk", i: i})
+			add(evRec{kind: "sync", i: i})
+		}
 		go func() {
 			defer close(done[i])
 			defer func() {
@@ -182,34 +254,57 @@ func runStall(cs *Case) *Obs {
 	for i := 0; i < nearly; i++ {
 		startSub(i)
 	}
-	// arm the stalls, then the phase-2 writes, one at a time
-	phase2.Store(true)
-	bmu.Lock()
-	for i := range armed {
-		armed[i] = true
+	anyBlocked := func() bool {
+		bmu.Lock()
+		defer bmu.Unlock()
+		for _, ss := range stalls {
+			if ss.blocked {
+				return true
+			}
+		}
+		return false
 	}
-	bmu.Unlock()
+	// releases due after a write (or, at the end, all transient ones); true if any
+	releaseDue := func(all bool) bool {
+		bmu.Lock()
+		any := false
+		for _, ss := range stalls {
+			if !ss.blocked || ss.forever {
+				continue
+			}
+			if !all {
+				if ss.since >= written {
+					continue // began during this very write: counts from the next one
+				}
+				ss.remaining--
+				if ss.remaining > 0 {
+					continue
+				}
+			}
+			ss.blocked = false
+			close(ss.release)
+			any = true
+		}
+		bmu.Unlock()
+		return any
+	}
+	phase2.Store(true)
 	for _, o := range cs.Ops {
 		if o.W < 0 || obs.Bad != "" {
 			continue
 		}
-		bmu.Lock()
-		anyBlocked := false
-		for _, b := range blocked {
-			anyBlocked = anyBlocked || b
-		}
-		bmu.Unlock()
-		if anyBlocked {
+		if anyBlocked() {
 			obs.WhileBlock++
 		}
 		res := make(chan string, 1)
+		opi := nres
 		go func() {
 			defer func() {
 				if p := recover(); p != nil {
 					res <- "panic"
 				}
 			}()
-			res <- e.apply(o)
+			res <- apply(o, opi)
 		}()
 		select {
 		case r := <-res:
@@ -222,31 +317,37 @@ func runStall(cs *Case) *Obs {
 			obs.Results = append(obs.Results, "err")
 			obs.Bad = "a write did not return within 5 s"
 		}
+		nres++
 		if obs.Bad == "" && !waitParked(e, live, false) {
 			obs.Bad = "senders did not settle after a write"
 		}
+		bmu.Lock()
+		written++
+		bmu.Unlock()
+		if obs.Bad == "" && releaseDue(false) && !waitParked(e, live, false) {
+			obs.Bad = "senders did not settle after a release"
+		}
 	}
-	// a permanently stalled subscription ends with an error once the timer fires
+	// a Send blocked for ever ends its subscription with an error once the timer fires
 	for i := range cs.Subs {
-		if cs.Stall[i] == 2 {
-			bmu.Lock()
-			b := blocked[i]
-			bmu.Unlock()
-			if b {
-				select {
-				case <-done[i]:
-				case <-time.After(5 * time.Second):
-					if obs.Bad == "" {
-						obs.Bad = "a subscription whose Send stays blocked did not end within 5 s (timeout 100 ms)"
-					}
+		bmu.Lock()
+		b := stalls[i].blocked && stalls[i].forever
+		bmu.Unlock()
+		if b {
+			select {
+			case <-done[i]:
+				add(evRec{kind: "timeout", i: i})
+			case <-time.After(5 * time.Second):
+				if obs.Bad == "" {
+					obs.Bad = "a subscription whose Send stays blocked did not end within 5 s (timeout 100 ms)"
 				}
 			}
 		}
 	}
-	// ClientStats before the resumed senders drain (CoalesceCount is cumulative)
-	close(release)
-	if obs.Bad == "" && !waitParked(e, live, false) {
-		obs.Bad = "senders did not settle after the stalls were released"
+	for k := 0; k < 50 && obs.Bad == "" && releaseDue(true); k++ {
+		if !waitParked(e, live, false) {
+			obs.Bad = "senders did not settle after the stalls were released"
+		}
 	}
 	// a subscriber that starts now gets its snapshot straight from the cache
 	phase2.Store(false)
@@ -278,6 +379,9 @@ func runStall(cs *Case) *Obs {
 		st.cancel()
 	}
 	for i := range done {
+		if !started[i] {
+			continue
+		}
 		select {
 		case <-done[i]:
 		case <-time.After(5 * time.Second):
@@ -285,14 +389,10 @@ func runStall(cs *Case) *Obs {
 		}
 	}
 	obs.Ended = ended
-	// a stall that never happened (no response in phase 2) is no stall
-	obs.Stalled = make([]int, n)
-	for i := range cs.Subs {
-		if everBlocked[i] {
-			obs.Stalled[i] = cs.Stall[i]
-		}
-	}
-	return obs
+	lmu.Lock()
+	out := append([]evRec(nil), log...)
+	lmu.Unlock()
+	return obs, out
 }
 
 // ---------------------------------------------------------------------------
@@ -371,7 +471,7 @@ func firstSeen(rs []Resp) [][]string {
 	return out
 }
 
-func (e *emitter) caseTerm(cs *Case, obs *Obs) string {
+func (e *emitter) caseTerm(cs *Case, obs *Obs, log []evRec) string {
 	var b strings.Builder
 	b.WriteString("mkCase8 ")
 	subs := make([]string, len(cs.Subs))
@@ -379,8 +479,8 @@ func (e *emitter) caseTerm(cs *Case, obs *Obs) string {
 		subs[i] = fmt.Sprintf("(%s, %s)", e.paths(s.Qs), vh.Bool(s.UO))
 	}
 	b.WriteString(vh.List(subs) + " ")
-	stall := make([]string, len(cs.Stall))
-	for i := range cs.Stall {
+	stall := make([]string, len(cs.Subs))
+	for i := range cs.Subs {
 		k := 0
 		if i < len(obs.Stalled) {
 			k = obs.Stalled[i]
@@ -404,14 +504,12 @@ func (e *emitter) caseTerm(cs *Case, obs *Obs) string {
 	}
 	b.WriteString(vh.List(pre) + " " + vh.List(ops) + " ")
 	bad := obs.Bad != ""
-	orders := make([]string, len(cs.Subs))
 	streams := make([]string, len(cs.Subs))
 	for i := range cs.Subs {
 		var rs []Resp
 		if i < len(obs.Streams) {
 			rs = obs.Streams[i]
 		}
-		orders[i] = e.paths(firstSeen(rs))
 		ts := make([]string, len(rs))
 		for j, r := range rs {
 			if r.K == "other" {
@@ -421,7 +519,49 @@ func (e *emitter) caseTerm(cs *Case, obs *Obs) string {
 		}
 		streams[i] = vh.List(ts)
 	}
-	b.WriteString(vh.List(orders) + " " + vh.List(streams) + " ")
+	var steps []string
+	for _, ev := range log {
+		var t string
+		switch ev.kind {
+		case "write":
+			r := ev.res
+			if r == "" {
+				r = "err"
+			}
+			t = fmt.Sprintf("(CL (LWrite 0%%nat (%s)), OW %s)", e.wopT(ev.op), wresT(r))
+		case "feed":
+			t = "(CL (LFeed 0%nat), ONone)"
+		case "unlock":
+			t = "(CL (LUnlock 0%nat), ONone)"
+		case "regall":
+			t = fmt.Sprintf("(CRegAll %s, ONone)", natT(ev.i))
+		case "walk":
+			var rs []Resp
+			if ev.i < len(obs.Streams) {
+				rs = obs.Streams[ev.i]
+			}
+			t = fmt.Sprintf("(CWalk %s %s, ONone)", natT(ev.i), e.paths(firstSeen(rs)))
+		case "sync":
+			t = fmt.Sprintf("(CL (LSync %s), ONone)", natT(ev.i))
+		case "deq":
+			if ev.stat {
+				t = fmt.Sprintf("(CL (LDeq %s), ODeq %s %s)", natT(ev.i), natT(ev.dup), natT(ev.q))
+			} else {
+				t = fmt.Sprintf("(CL (LDeq %s), ONone)", natT(ev.i))
+			}
+		case "read":
+			if ev.resp.K == "other" {
+				bad = true
+			}
+			t = fmt.Sprintf("(CL (LRead %s), OResp (%s))", natT(ev.i), e.respT(ev.resp))
+		case "sent":
+			t = fmt.Sprintf("(CL (LSent %s), ONone)", natT(ev.i))
+		case "timeout":
+			t = fmt.Sprintf("(CL (LTimeout %s), ONone)", natT(ev.i))
+		}
+		steps = append(steps, t)
+	}
+	b.WriteString(vh.List(steps) + " " + vh.List(streams) + " ")
 	ended := make([]string, len(obs.Ended))
 	for i, x := range obs.Ended {
 		ended[i] = vh.Bool(x)
@@ -458,14 +598,18 @@ func (e *emitter) caseTerm(cs *Case, obs *Obs) string {
 
 func (e *emitter) run(cs *Case) {
 	cs.Obs = nil
-	obs := runStall(cs)
+	obs, log := runStall(cs)
+	for _, ev := range log {
+		obs.Log = append(obs.Log, strings.TrimSpace(fmt.Sprintf("%s %d %s %v", ev.kind, ev.i, ev.res, ev.resp)))
+	}
 	cs.Obs = obs
-	e.cf.Add(e.caseTerm(cs, obs), cs)
+	e.cf.Add(e.caseTerm(cs, obs, log), cs)
 	canon, _ := json.Marshal(struct {
 		O []Op
 		S []SubCfg
 		T []int
-	}{cs.Ops, cs.Subs, cs.Stall})
+		P [][]Block
+	}{cs.Ops, cs.Subs, cs.Stall, cs.Plan})
 	coalesced := false
 	for _, rs := range obs.Streams {
 		for _, r := range rs {
@@ -559,7 +703,26 @@ func genCase(r *vh.Rand, dead bool) *Case {
 			}
 		}
 		cs.Stall = append(cs.Stall, k)
+		var plan []Block
+		switch k {
+		case 1:
+			// one to three blocked Sends, each held for 1-4 writes (the last maybe to the end)
+			at := 1 + r.Intn(2)
+			for b, nb := 0, 1+r.Intn(3); b < nb; b++ {
+				plan = append(plan, Block{At: at, Hold: 1 + r.Intn(4)})
+				at += 1 + r.Intn(2)
+			}
+		case 2:
+			at := 1 + r.Intn(2)
+			if r.Chance(1, 2) {
+				plan = append(plan, Block{At: at, Hold: 1 + r.Intn(3)})
+				at += 1 + r.Intn(2)
+			}
+			plan = append(plan, Block{At: at, Hold: 0})
+		}
+		cs.Plan = append(cs.Plan, plan)
 	}
+	cs.Plan = append(cs.Plan, nil)
 	cs.Subs = append(cs.Subs, SubCfg{Qs: [][]string{{t}}})
 	cs.Stall = append(cs.Stall, 0)
 	cs.Late = true
